@@ -44,6 +44,10 @@ def plan(tier, seed):
     # rolling rebuilds: at EVERY tick of a window a brand-new instance is built from the architectural state and memory alone and both take the
     # same step (hidden per-step state that a rebuilt instance cannot have is exposed at whichever tick it matters, not only at a lucky snapshot)
     items += [{'k': 'rolling'}] * (200 if tier == 'quick' else 9000)
+    # pristine rebuilds: like 'rolling', but the rebuilt instance lives in a freshly forked pristine process (no instance ever existed there, no
+    # instruction was ever executed): whatever the history left behind OUTSIDE the instance - module-level caches, class attributes, mutable
+    # default arguments - is absent there, so a step that depends on it shows
+    items += [{'k': 'pristine'}] * (60 if tier == 'quick' else 3000)
     # hash-seed runs: the same case executed in fresh interpreters under other PYTHONHASHSEED values (hash randomisation is the one source of
     # nondeterminism a pure-Python library can pick up without importing anything)
     items += [{'k': 'hashseed'}] * (16 if tier == 'quick' else 600)
@@ -293,6 +297,8 @@ def gen(item, rng, tier):
         dd['end'] = dd['begin'] + rng.choice([1 << 20, 1 << 21])
     if item['k'] == 'rolling':
         return {'scenario': 'rolling', 'cores': [core], 's': rng.randrange(0, max(1, nt - 40)), 'k': rng.choice([24, 40, 64])}
+    if item['k'] == 'pristine':
+        return {'scenario': 'rolling', 'pristine': True, 'cores': [core], 's': rng.randrange(0, max(1, nt - 30)), 'k': rng.choice([16, 24, 32])}
     return {'scenario': 'replay', 'cores': [core], 's': s, 'k': k, 'order': order}
 
 
@@ -570,6 +576,20 @@ def run_replay(case):
     return res
 
 
+def _pristine_step(arg):
+    """runs in a pristine grandchild: build the instance from the snapshot, take one step, report the architectural state"""
+    spec2, pos, tick, ev_pos, lines, wfe, wfi = arg
+    bB = _board_for(spec2)
+    bB.pos = list(pos)
+    bB.tick = tick
+    bB.ev_pos = ev_pos
+    bB.cores[0].lines.update(lines)
+    bB.cores[0].arm.is_wait_for_event = wfe
+    bB.cores[0].arm.is_wait_for_interrupt = wfi
+    adv = bB.advance()
+    return adv, _state(bB, False) if adv else None
+
+
 def run_rolling(case):
     core = case['cores'][0]
     s0, k = case['s'], case['k']
@@ -593,14 +613,19 @@ def run_rolling(case):
         bB.cores[0].arm.is_wait_for_event = arm.is_wait_for_event
         bB.cores[0].arm.is_wait_for_interrupt = arm.is_wait_for_interrupt
         prev = type(arm.executed_opcode).__name__ if getattr(arm, 'executed_opcode', None) is not None else '-'
-        a0, aB = b.advance(), bB.advance()
+        if case.get('pristine'):
+            arg = (spec2, list(b.pos), b.tick, b.ev_pos, dict(b.cores[0].lines), arm.is_wait_for_event, arm.is_wait_for_interrupt)
+            a0 = b.advance()
+            aB, stP = solo.solo(_pristine_step, arg)
+        else:
+            a0, aB = b.advance(), bB.advance()
         if a0 != aB:
             res['violations'].append({'oracle': 'replay.termination', 'site': 'advance', 'cls': 'length', 'tick': b.tick,
                                       'detail': 'rolling rebuild: original %s, rebuilt %s at tick %d' % (a0, aB, b.tick)})
             break
         if not a0:
             break
-        st0, stB = _state(b, False), _state(bB, False)
+        st0, stB = _state(b, False), (stP if case.get('pristine') else _state(bB, False))
         op = type(b.cores[0].arm.executed_opcode).__name__
         if st0 != stB:
             d = _first_diff(st0, stB)
